@@ -2,11 +2,11 @@ package main
 
 import (
 	"fmt"
-	"strconv"
 	"go/constant"
 	"go/token"
 	"go/types"
 	"sort"
+	"strconv"
 	"strings"
 
 	"golang.org/x/tools/go/ssa"
